@@ -608,6 +608,29 @@ func (an *analyzer) effects(st *tstate, n ast.Node) {
 						k = -k
 					}
 					an.shiftBase(st, lb, int(k))
+				} else if lo, hi, ok := an.intRange(rhs); ok && x.Tok == token.ADD_ASSIGN && lo >= 0 && hi < 8 {
+					// cursor += width, width one of a few constants: at least lo, at most hi tokens on
+					for key, f := range st.f {
+						if strings.HasSuffix(key, "|"+lb) {
+							nf := f
+							if nf.ub > NEG {
+								nf.ub -= hi
+								if nf.ub < -4 {
+									nf.ub = NEG
+								}
+							}
+							nf.lb += lo
+							if nf.lb > 8 {
+								nf.lb = 8
+							}
+							st.f[key] = nf
+						}
+					}
+					for o, a := range st.a {
+						if strings.HasSuffix(a.pair, "|"+lb) {
+							delete(st.a, o)
+						}
+					}
 				} else {
 					an.killBase(st, lb, NEG)
 				}
@@ -1538,4 +1561,98 @@ func (an *analyzer) collectEntryAt(st *tstate, c *ast.CallExpr) {
 			an.changedEntry = true
 		}
 	}
+}
+
+// intRange: the expression is a constant, or a local defined once from a call of a package
+// function all of whose returns give an integer constant at that position.
+func (an *analyzer) intRange(e ast.Expr) (lo, hi int, ok bool) {
+	if tv, has := an.info.Types[e]; has && tv.Value != nil {
+		if k, isInt := constant.Int64Val(tv.Value); isInt {
+			return int(k), int(k), true
+		}
+	}
+	id, isID := ast.Unparen(e).(*ast.Ident)
+	if !isID {
+		return 0, 0, false
+	}
+	obj := an.info.ObjectOf(id)
+	if obj == nil {
+		return 0, 0, false
+	}
+	// the defining assignment
+	var def *ast.AssignStmt
+	idx := -1
+	nAssign := 0
+	for p := an.parents[id]; p != nil; p = an.parents[p] {
+		fd, isFD := p.(*ast.FuncDecl)
+		if !isFD {
+			continue
+		}
+		ast.Inspect(fd.Body, func(n ast.Node) bool {
+			as, isAs := n.(*ast.AssignStmt)
+			if !isAs {
+				return true
+			}
+			for i, l := range as.Lhs {
+				if lid, isL := l.(*ast.Ident); isL && an.info.ObjectOf(lid) == obj {
+					nAssign++
+					def, idx = as, i
+				}
+			}
+			return true
+		})
+		break
+	}
+	if def == nil || nAssign != 1 || len(def.Rhs) != 1 {
+		return 0, 0, false
+	}
+	call, isCall := ast.Unparen(def.Rhs[0]).(*ast.CallExpr)
+	if !isCall {
+		return 0, 0, false
+	}
+	f := an.calleeOf(call)
+	if f == nil {
+		return 0, 0, false
+	}
+	d := an.w.decls[f]
+	if d == nil || d.Body == nil {
+		return 0, 0, false
+	}
+	first := true
+	good := true
+	ast.Inspect(d.Body, func(n ast.Node) bool {
+		if _, isLit := n.(*ast.FuncLit); isLit {
+			return false
+		}
+		ret, isRet := n.(*ast.ReturnStmt)
+		if !isRet {
+			return true
+		}
+		if idx >= len(ret.Results) {
+			good = false
+			return false
+		}
+		tv, has := an.info.Types[ret.Results[idx]]
+		if !has || tv.Value == nil {
+			good = false
+			return false
+		}
+		k, isInt := constant.Int64Val(tv.Value)
+		if !isInt {
+			good = false
+			return false
+		}
+		if first || int(k) < lo {
+			lo = int(k)
+		}
+		if first || int(k) > hi {
+			hi = int(k)
+		}
+		first = false
+		return true
+	})
+	if !good || first {
+		return 0, 0, false
+	}
+	return lo, hi, true
 }
